@@ -6,6 +6,7 @@ import RuschmModel.DriverNum
 import RuschmModel.DriverText
 import RuschmModel.DriverMacro
 import RuschmModel.DriverGen
+import RuschmModel.DriverProg
 open Ruschm
 
 def runCase (kind : String) (fields : List String) : List String :=
@@ -15,6 +16,8 @@ def runCase (kind : String) (fields : List String) : List String :=
   | "read" => Driver.read fields
   | "bracket" => Driver.bracket fields
   | "expand" => Driver.expand fields
+  | "prog" => Driver.prog fields
+  | "progx" => Driver.progx fields
   | "gen-selfcheck" => Driver.genSelfcheck fields
   | "gen-text" => Driver.genText fields
   | "gen-data" => Driver.genData fields
